@@ -83,13 +83,13 @@ func (d *memDialer) DialStream(ctx context.Context, addr conn.Addr, payload []by
 	return d.e, nil
 }
 
-func readAll(c io.Reader, bufSize int) (got []byte, eof bool, err error) {
+func readAll(c io.Reader, bufSize int, scratch []byte) (got []byte, eof bool, err error) {
 	if bufSize == 0 {
 		var b bytes.Buffer
 		_, err = io.Copy(&b, c)
 		return b.Bytes(), err == nil, err
 	}
-	buf := make([]byte, bufSize)
+	buf := scratch[:bufSize]
 	for {
 		n, err := c.Read(buf)
 		got = append(got, buf[:n]...)
@@ -170,7 +170,7 @@ func buildClient(sp *Spec, d *memDialer) (netio.StreamClient, error) {
 	return nil, fmt.Errorf("unknown protocol %q", sp.Proto)
 }
 
-func serverThread(sp *Spec, srv netio.StreamServer, e *end, r *Result) {
+func serverThread(sp *Spec, srv netio.StreamServer, e *end, r *Result, scratch []byte) {
 	req, err := srv.HandleStream(e, nopLogger)
 	r.SrvErr = err
 	r.SrvPCNil = req.PendingConn == nil
@@ -202,7 +202,7 @@ func serverThread(sp *Spec, srv netio.StreamServer, e *end, r *Result) {
 	}
 	d2 := data(sp.D2, 0x53)
 	if sp.Mode == "A" {
-		got, eof, rerr := readAll(sc, sp.ReadBuf)
+		got, eof, rerr := readAll(sc, sp.ReadBuf, scratch)
 		r.GotS, r.EOFS, r.ReadErrS = append(r.GotS, got...), eof, rerr
 		if len(d2) > 0 {
 			sc.Write(d2)
@@ -214,27 +214,21 @@ func serverThread(sp *Spec, srv netio.StreamServer, e *end, r *Result) {
 		sc.Write(d2)
 	}
 	sc.CloseWrite()
-	got, eof, rerr := readAll(sc, sp.ReadBuf)
+	got, eof, rerr := readAll(sc, sp.ReadBuf, scratch)
 	r.GotS, r.EOFS, r.ReadErrS = append(r.GotS, got...), eof, rerr
 }
 
-func clientThread(sp *Spec, e *end, r *Result) {
-	d := &memDialer{e: e, res: r}
+func clientThread(sp *Spec, cl netio.StreamClient, e *end, r *Result, scratch []byte) {
 	target := sp.Target.connAddr()
 	switch sp.Client {
 	case "dial":
-		cl, err := buildClient(sp, d)
-		if err != nil {
-			r.SetupErr = "client: " + err.Error()
-			return
-		}
 		cc, err := cl.DialStream(context.Background(), target, data(sp.Payload, 0xC0))
 		r.CliErr = err
 		r.CliNoConn = cc == nil
 		if err != nil || cc == nil {
 			return
 		}
-		clientData(sp, cc, r)
+		clientData(sp, cc, r, scratch)
 		cc.Close()
 	case "request":
 		var (
@@ -250,21 +244,21 @@ func clientThread(sp *Spec, e *end, r *Result) {
 		r.CliErr = err
 		r.Bound = endpointOfConnAddr(bound)
 	case "raw":
-		rawSocksClient(sp, e, r)
+		rawSocksClient(sp, e, r, scratch)
 	}
 }
 
-func clientData(sp *Spec, cc netio.Conn, r *Result) {
+func clientData(sp *Spec, cc netio.Conn, r *Result, scratch []byte) {
 	d1 := data(sp.D1, 0xD1)
 	if sp.Mode == "A" {
 		if len(d1) > 0 {
 			_, r.WriteErrC = cc.Write(d1)
 		}
 		cc.CloseWrite()
-		r.GotC, r.EOFC, r.ReadErrC = readAll(cc, sp.ReadBuf)
+		r.GotC, r.EOFC, r.ReadErrC = readAll(cc, sp.ReadBuf, scratch)
 		return
 	}
-	r.GotC, r.EOFC, r.ReadErrC = readAll(cc, sp.ReadBuf)
+	r.GotC, r.EOFC, r.ReadErrC = readAll(cc, sp.ReadBuf, scratch)
 	if len(d1) > 0 {
 		_, r.WriteErrC = cc.Write(d1)
 	}
@@ -275,7 +269,7 @@ var errRawRefused = errors.New("c07: raw client: refused by the server")
 
 // rawSocksClient is a hand-written RFC 1928/1929 client (method lists of any
 // length, optional pipelining of all its messages).
-func rawSocksClient(sp *Spec, e *end, r *Result) {
+func rawSocksClient(sp *Spec, e *end, r *Result, scratch []byte) {
 	m1 := append([]byte{5, byte(len(sp.Methods))}, sp.Methods...)
 	var m2 []byte
 	if sp.ServerAuth {
@@ -355,7 +349,7 @@ func rawSocksClient(sp *Spec, e *end, r *Result) {
 		r.CliErr = errRawRefused
 		return
 	}
-	clientData(sp, e, r)
+	clientData(sp, e, r, scratch)
 }
 
 func parseLocal(s string) *net.TCPAddr {
@@ -363,12 +357,64 @@ func parseLocal(s string) *net.TCPAddr {
 	return net.TCPAddrFromAddrPort(ap)
 }
 
-// runCase executes one case.  timer is a reusable hang watchdog.
-func runCase(sp *Spec, timer *time.Timer) *Result {
-	r := &Result{}
+// runner executes cases one at a time: the client thread runs on the caller's
+// goroutine, the server thread on a long-lived companion goroutine.  Server and
+// client objects are built once per base case (prepare) and reused for its
+// fragmentations; they hold no per-connection state.
+type runner struct {
+	timer    *time.Timer
+	jobs     chan func()
+	done     chan struct{}
+	srv      netio.StreamServer
+	cl       netio.StreamClient
+	dialer   *memDialer
+	setupErr string
+	bufC     []byte
+	bufS     []byte
+}
+
+func newRunner() *runner {
+	rn := &runner{timer: time.NewTimer(time.Hour), dialer: &memDialer{}, bufC: make([]byte, 65536), bufS: make([]byte, 65536)}
+	rn.spawn()
+	return rn
+}
+
+func (rn *runner) spawn() {
+	jobs, done := make(chan func(), 1), make(chan struct{}, 1)
+	rn.jobs, rn.done = jobs, done
+	go func() {
+		for f := range jobs {
+			f()
+			done <- struct{}{}
+		}
+	}()
+}
+
+// prepare builds the server and the client for a base case.
+func (rn *runner) prepare(sp *Spec) {
+	rn.setupErr = ""
+	rn.srv, rn.cl = nil, nil
 	srv, err := buildServer(sp)
 	if err != nil {
-		r.SetupErr = "server: " + err.Error()
+		rn.setupErr = "server: " + err.Error()
+		return
+	}
+	rn.srv = srv
+	if sp.Client == "dial" {
+		cl, err := buildClient(sp, rn.dialer)
+		if err != nil {
+			rn.setupErr = "client: " + err.Error()
+			return
+		}
+		rn.cl = cl
+	}
+}
+
+// runCase executes one case (prepare must have been called for its base).
+func (rn *runner) runCase(sp *Spec) *Result {
+	r := &Result{}
+	if rn.setupErr != "" {
+		r.SetupErr = rn.setupErr
 		return r
 	}
 	local := sp.Local
@@ -376,40 +422,37 @@ func runCase(sp *Spec, timer *time.Timer) *Result {
 		local = "192.0.2.1:1080"
 	}
 	ce, se, w := newPair(sp.Frag, parseLocal(local), cliLocal)
-	done := make(chan struct{}, 2)
-	go func() {
+	rn.dialer.e, rn.dialer.res = ce, r
+	srv, bufS := rn.srv, rn.bufS
+	rn.jobs <- func() {
 		defer func() {
 			if p := recover(); p != nil {
 				r.PanicS = panicText(p)
 			}
 			se.finish()
-			done <- struct{}{}
 		}()
-		serverThread(sp, srv, se, r)
-	}()
-	go func() {
+		serverThread(sp, srv, se, r, bufS)
+	}
+	func() {
 		defer func() {
 			if p := recover(); p != nil {
 				r.PanicC = panicText(p)
 			}
 			ce.finish()
-			done <- struct{}{}
 		}()
-		clientThread(sp, ce, r)
+		clientThread(sp, rn.cl, ce, r, rn.bufC)
 	}()
-	timer.Reset(60 * time.Second)
-	for i := 0; i < 2; i++ {
-		select {
-		case <-done:
-		case <-timer.C:
-			r.Hang = true
-			w.kill()
-			return &Result{Hang: true}
-		}
+	rn.timer.Reset(60 * time.Second)
+	select {
+	case <-rn.done:
+	case <-rn.timer.C:
+		w.kill()
+		rn.spawn() // abandon the stuck companion
+		return &Result{Hang: true}
 	}
-	if !timer.Stop() {
+	if !rn.timer.Stop() {
 		select {
-		case <-timer.C:
+		case <-rn.timer.C:
 		default:
 		}
 	}
@@ -421,4 +464,12 @@ func runCase(sp *Spec, timer *time.Timer) *Result {
 	r.SCGlue = se.out.glue
 	w.mu.Unlock()
 	return r
+}
+
+// runOnce prepares and runs a single case (replay, confirmation).
+func runOnce(sp *Spec) *Result {
+	rn := newRunner()
+	defer close(rn.jobs)
+	rn.prepare(sp)
+	return rn.runCase(sp)
 }
